@@ -30,7 +30,7 @@ func init() {
 		RequiredCounters: []string{"accepted_expected_and_observed", "rejected_expected_and_observed", "order_checked_by_reference", "alias_rejections", "nested_reads"},
 		Assumptions:      []string{"math/big ModSqrt/Jacobi are the oracle for residuosity; the reference decoder reproduces the 16 published generator encodings and rejects the 16 published non-subgroup encodings"},
 		Plan: func(tier string) []Child {
-			return plus386(shardsVar(pick(tier, 12, 16), Child{Flavour: "plain", NCPU: 1}), 1)
+			return plus386div(shardsVar(pick(tier, 12, 16), Child{Flavour: "plain", NCPU: 1}), 1, pick(tier, 1, 8))
 		},
 		Run: runC06,
 	})
